@@ -284,3 +284,43 @@ def pid_space_small():
             return int(fin.read().strip()) < 1000000
     except Exception:
         return False
+
+
+class YieldLock(object):
+    '''
+    proxy around a lock of the code under test: a short seeded sleep just
+    before the lock is acquired (an existing suspension point) widens the
+    window between whatever was read or done before and the critical section
+    '''
+
+    def __init__(self, lock, seed, name='lock', sleeps=None):
+        self._lock, self._seed, self._name = lock, seed, name
+        self._sleeps = sleeps or [0, 0, 0.0002, 0.0005, 0.001, 0.002]
+        self._rngs   = dict()
+
+    def _rng(self):
+        import random
+        import threading as mt
+        tn = mt.current_thread().name
+        if tn not in self._rngs:
+            self._rngs[tn] = random.Random('%s/%s/%s' % (self._seed,
+                                                         self._name, tn))
+        return self._rngs[tn]
+
+    def _nap(self):
+        import time
+        time.sleep(self._rng().choice(self._sleeps))
+
+    def __enter__(self):
+        self._nap()
+        return self._lock.__enter__()
+
+    def __exit__(self, *a):
+        return self._lock.__exit__(*a)
+
+    def acquire(self, *a, **k):
+        self._nap()
+        return self._lock.acquire(*a, **k)
+
+    def release(self):
+        return self._lock.release()
